@@ -258,9 +258,33 @@ fn make_case(timers: &[(Action, bool)], term: Term, term_time: u32, mailbox: Mai
         }
         Term::Never => ops.push(Op::Sleep(HORIZON as u32 + 5)),
     }
+    // another strong kind as the only holder: the Addr is converted and dropped first, every
+    // later operation goes through the remaining kind (stop through a weak address)
+    let holder = HOLDER.with(|h| h.get());
+    if holder != 0 {
+        let keep = if holder == 1 { H::Cal(0) } else { H::Snd(0) };
+        let mut pre = vec![if holder == 1 { Op::ToCaller(H::Addr(0)) } else { Op::ToSender(H::Addr(0)) }, Op::Downgrade(H::Addr(0)), Op::Drop(H::Addr(0))];
+        for op in ops.iter_mut() {
+            *op = match *op {
+                Op::Stop(_) => Op::Stop(H::WAddr(0)),
+                Op::Drop(_) => Op::Drop(keep),
+                Op::Send(_, id) if holder == 1 => Op::CallAbandon(keep, id),
+                Op::Send(_, id) => Op::Send(keep, id),
+                Op::Cmd(_, id, a) if holder == 2 => Op::Cmd(H::Addr(0), id, a),
+                o => o,
+            };
+        }
+        pre.extend(ops);
+        ops = pre;
+    }
     let instant = work == Work::default();
     let desc = format!(
-        "timers{} {:?} term={:?}@{} mailbox={} work={}s racy={}",
+        "timers{}{} {:?} term={:?}@{} mailbox={} work={}s racy={}",
+        match holder {
+            1 => " [held by a Caller only]",
+            2 => " [held by a Sender only]",
+            _ => "",
+        },
         match restart {
             Some((at, rec)) => format!(" [restarted at t={at}{}]", if rec { ", recreate" } else { "" }),
             None => String::new(),
@@ -284,6 +308,19 @@ fn make_case(timers: &[(Action, bool)], term: Term, term_time: u32, mailbox: Mai
             oracle,
         }),
     }
+}
+
+thread_local! {
+    /// the client's only strong handle is a Caller (1) or a Sender (2) instead of an Addr (0):
+    /// timers run on the actor's own weak handle, whatever kind of strong handle keeps it alive
+    static HOLDER: std::cell::Cell<u8> = const { std::cell::Cell::new(0) };
+}
+
+fn with_holder<T>(kind: u8, f: impl FnOnce() -> T) -> T {
+    HOLDER.with(|h| h.set(kind));
+    let v = f();
+    HOLDER.with(|h| h.set(0));
+    v
 }
 
 thread_local! {
@@ -440,6 +477,13 @@ fn cases(tier: Tier) -> Vec<Case> {
         c.exec.select_choice = false;
         c
     }));
+    // ... the actor held by a Caller only / by a Sender only (every fifth case; thorough: every
+    // second; timers registered in started(), instant handlers, no time races)
+    for kind in [1u8, 2] {
+        let step = if tier == Tier::Thorough { 2 } else { 5 };
+        let extra = with_holder(kind, || plain_cases(tier));
+        v.extend(extra.into_iter().enumerate().filter(|(i, c)| i % step == kind as usize % step && c.desc.contains("work=0s racy=false") && !c.desc.contains(", true)") && c.desc.matches("timer:").count() <= 1).map(|(_, c)| c));
+    }
     // ... a restart before the end (every seventh case; thorough: every second; both restartable
     // strategies; restart at t=1 or t=3): timers registered by the first incarnation must be gone
     // for good - nothing fires after the termination, no timer task is left over
